@@ -136,6 +136,9 @@ class Shadow:
             s = ''.join(rng.choice(pool) for _ in range(ln)).strip(' ') or 'j'
             if rng.random() < 0.05:
                 s = s[: max(1, ln - 2)] + '\U0001F600'
+            if rng.random() < 0.08:
+                # code units whose low byte is 00 / '.' / '/' / ';' / ' ' at the end of the identifier (byte-level edge cases)
+                s = s[: max(1, ln - 2)] + rng.choice(['\u0100', '\u4e00', '\u012e', '\u012f', '\u013b', '\u0120', '\u0200\u0100'])
             if rng.random() < 0.04:
                 # 17..40 characters outside the BMP: at most 64 characters but more than 64 UCS-2 code units / UTF-8 bytes
                 s = rng.choice(['', 'x']) + rng.choice(['\U0001F600', '\U0001F3B5']) * rng.randint(15, 40) + rng.choice(['', '.mp3'])
@@ -150,7 +153,9 @@ class Shadow:
             ln = rng.choice([1, 2, 5, 8, 13, 20, 40, 80, 120, 200])
             s = ''.join(rng.choice(pool) for _ in range(ln)).strip(' ') or 'u'
             if rng.random() < 0.15:
-                s = s[: max(1, ln // 2)] + rng.choice(['中文', 'Ω', 'Ж日'])
+                s = s[: max(1, ln // 2)] + rng.choice(['中文', 'Ω', 'Ж日', '\u0100', '第\u4e00', 'x\u012f', '\u013b', 'a\u0200\u0100', '\u0120'])
+            elif rng.random() < 0.05:
+                s = s[: max(1, ln // 2)] + rng.choice(['\xff', '\xa0x', '\xad'])
             if s not in siblings and s not in ('.', '..'):
                 return s
         return None
